@@ -265,6 +265,17 @@ def main(tier="quick"):
                 elif not header_check(pkg.files, pkg.source_name):
                     rep.violation(f"hdr-{backend}-{fld}-{fn[:4]}", f"[{backend}] the rendered translation unit does not include cmath although it calls {fn} (inject_code block: {fld}): {q}",
                                   {"query": q, "backend": backend, "symptom": "missing-header"})
+    # the job is BUILT by the package's own build files: no flag in them may license the compiler to change floating-point values
+    for backend in ("atlas", "cms_aod", "cms_miniaod"):
+        coll = qgen.ALPHA[backend].primary
+        pkg = translate(f"ds.SelectMany(lambda e: e.{coll}('A')).Select(lambda j: pow(j.pt(), 1.5) + sqrt(j.eta()) / 3)", backend)
+        nhdr += 1
+        if pkg.ok:
+            for fn, txt in pkg.files.items():
+                if fn.endswith((".xml", ".txt", ".sh", ".py", ".cmake")):
+                    for flag in re.findall(r"-Ofast|-ffast-math|-funsafe-math-optimizations|-ffinite-math-only|-fassociative-math|-freciprocal-math|-fno-math-errno|-ffp-contract=fast|-mrecip", txt):
+                        rep.violation(f"flags-{backend}-{fn}", f"[{backend}] {fn} builds the job with {flag}: the compiler may then replace pow / sqrt / division by value-changing rewrites",
+                                      {"query": "(build files)", "backend": backend, "symptom": "value-changing-build-flag", "file": fn, "flag": flag})
     for c in cases:
         if c.info["context"] != "bare" or c.backend != "atlas":
             continue
